@@ -1,6 +1,7 @@
 #!/usr/bin/env python3
 """Regenerates /verif/MANIFEST.json from the table below (keeps the file valid at all times)."""
 import json, os
+SEQ = "bounded-exhaustive enumeration of inputs against an independent reference model"
 MC = "stateless model checking of the instrumented implementation (controlled scheduler, DFS over schedules and environment answers, iterative deviation bounding)"
 checks = {
  "C02": dict(cat="model_checking", engine="vsched+explore", tech=MC, ref="DESIGN.md §5 C02",
@@ -18,6 +19,21 @@ checks = {
  "C18": dict(cat="model_checking", engine="vsched+explore", tech=MC, ref="DESIGN.md §5 C18",
    text="real hybridbuffer + real ClientWorker over a scripted upstream; the stop request lands at every scheduling point (cost 1) under every upstream answer script within the bound (refuse, hang, reset, blocked write, silent, late ACK), small and large-chunk class, resend-after-failure start state; oracles: Destroy returns within BufferShutDownTimeout+IntermediateChannelTimeout of virtual time, feeder and client stopped, no BUG safety-net log, every unacknowledged chunk is a byte-identical file (none only in memory)",
    note="delay bounding (every departure from the default schedule costs 1) at bound 2-3 quick, +preemption bounding thorough; the listener/orchestrator part of shutdown is covered by the composed harness when built"),
+ "C01": dict(cat="model_checking", engine="vsched+explore", tech=MC, ref="DESIGN.md §5 C01",
+   text="composed real agent below the socket (parsing receiver sinks, byKeySet orchestrator, pipeline workers, hybrid buffers, ClientWorkers over scripted upstreams) over 2-3 generations of graceful stop + restart on the same queue directory; flush ticks, upstream answers (refuse, reset, blocked write, silent/late ACK), stop moments and schedules are explorer choices; oracle: at every stop each accepted unfiltered record is in an ACKed chunk or in a chunk file, at the end (healthy, drained) each is ACKed, delivered records are identical across deliveries, no safety-net BUG log",
+   note="delay bounding, deviation bound 1 quick / 2 thorough; <=5 records, 2 key sets, <=2 connections, <=3 generations; connection layer of the output replaced by a scripted connection (NewConsumerOverride); socket/framer covered by C08"),
+ "C05": dict(cat="model_checking", engine="vsched+explore", tech=MC, ref="DESIGN.md §5 C05",
+   text="same composed executions as C01 plus a 2 connections x 2 key sets x 2 records ordering scenario with forced spill; oracle: per (connection, key set) the first complete deliveries appear in arrival order; within each upstream connection chunk IDs ascend (no older chunk skipped)",
+   note="as C01; virtual clock strictly increasing (clock steps backwards are outside the quantifier)"),
+ "C19": dict(cat="model_checking", engine="vsched+explore", tech=MC, ref="DESIGN.md §5 C19, Appendix A.5",
+   text="same composed executions as C01 incl. the filter variant; after the stop of every generation the registries are gathered and the balance equations checked: input passed+dropped = lines (count and bytes), pipeline passed+dropped = input passed, dropped = filter matches = labelled{filtered}, per key set attribution, buffer input = consumed+leftover+dropped+pending, persistent gauge = files, leftover+pending = files, acknowledged = consumed, forwarded/acknowledged <= what the upstream saw",
+   note="as C01; equations from metric help strings and DESIGN Appendix A.5"),
+ "C09": dict(cat="exploration", engine="seq", tech=SEQ, ref="DESIGN.md §5 C09, Appendix A.2",
+   text="all PRI 0..191 x level mappings x schemas, out-of-range PRI menu, full product of header token menus (8^6 quick / 12^6 thorough), message bodies around the message and record limits x rune classes, histories of mixed lines; oracle: reference parser, facility/level mapping, truncation prefix/UTF-8/overflow count, exact passed+dropped accounting (count and bytes)",
+   note="limits scaled down in one variant and shipped limits in another; see harness/seq_parse/README.md for tolerances"),
+ "C14": dict(cat="exploration", engine="seq", tech=SEQ, ref="DESIGN.md §5 C14, Appendix A.3",
+   text="all strings over {a,1,.,@,/,-,space,e-acute} up to 7 symbols (quick) / 9 (thorough) plus planted-address menu at every position and adjacency; oracles: every byte of every core address inside a redacted span, only address-character spans containing '@' replaced, text without a supported address unchanged and uncounted",
+   note="shapes outside the documented core (local part ending in . - _, empty labels) tolerated either way; see harness/seq_redact/README.md"),
  "C13": dict(cat="exploration", engine="seq", tech="bounded-exhaustive enumeration of inputs against an independent integer reference model (all fractions up to 6/9 digits, all offsets, all short strings over a 9-symbol alphabet, all one-edit neighbours)", ref="DESIGN.md §5 C13",
    text="complete enumeration of the stated finite input domains through the exported parseTime transform; exactness to the nanosecond against days-from-civil integer arithmetic; totality (no panic) and error+count+fallback for strings not shaped like a date-time",
    note="valid timestamps outside the enumerated date/offset/fraction grid are not covered; leap second and non-digit digit positions only checked for totality"),
